@@ -61,6 +61,7 @@ def _case(draw, unit):
             'low': low, 'highs': his, 'zero_valued': [int(draw(st.integers(0, 3)) == 0) for _ in range(J + 1)],
             'reused': draw(st.integers(0, 2)) == 0,
             'layout': list(draw(st.sampled_from(LAYOUTS))) if draw(st.integers(0, 2)) == 0 else [2, -1], 'filt_form': draw(st.sampled_from(['names', 'names', 'names', 'tuples'])),
+            'ctx': draw(st.sampled_from(core.GRAD_CTXS)),
             'rx': draw(core.recipe_strategy()), 'rp': draw(core.recipe_strategy()),
             'k': draw(st.integers(0, 10**6))}
 
@@ -109,6 +110,12 @@ def _absent(kind, tdt):
 
 
 def run_case(case):
+    with core.grad_ctx(case.get('ctx')):
+        r = _run_case(case)
+    return r.label('ctx_' + case['ctx']) if case.get('ctx', 'default') != 'default' else r
+
+
+def _run_case(case):
     from pytorch_wavelets import DTCWTInverse
     r = Result()
     b, q, J = case['biort'], case['qshift'], case['J']
